@@ -91,6 +91,7 @@ Record msg := mkMsg {
   m_id : N;                        (* header ID: copied, never rewritten *)
   m_rcode : N; m_aa : bool; m_tc : bool; m_rd : bool; m_ad : bool;
   m_q : option (N * N);            (* (qtype, qclass) of the first question *)
+  m_qcase : N;                     (* spelling (upper/lower case variant) of the question name *)
   m_an : list rr; m_ns : list rr; m_ar : list rr;
   m_broken : bool }.
 
@@ -100,18 +101,18 @@ Inductive resp := RMsg (m : msg) | RErr (e : N).
 Definition parse_error : N := 20.
 
 Definition msg_set_aa (b : bool) (m : msg) : msg :=
-  mkMsg (m_id m) (m_rcode m) b (m_tc m) (m_rd m) (m_ad m) (m_q m) (m_an m) (m_ns m) (m_ar m) (m_broken m).
+  mkMsg (m_id m) (m_rcode m) b (m_tc m) (m_rd m) (m_ad m) (m_q m) (m_qcase m) (m_an m) (m_ns m) (m_ar m) (m_broken m).
 Definition msg_set_rd (b : bool) (m : msg) : msg :=
-  mkMsg (m_id m) (m_rcode m) (m_aa m) (m_tc m) b (m_ad m) (m_q m) (m_an m) (m_ns m) (m_ar m) (m_broken m).
+  mkMsg (m_id m) (m_rcode m) (m_aa m) (m_tc m) b (m_ad m) (m_q m) (m_qcase m) (m_an m) (m_ns m) (m_ar m) (m_broken m).
 Definition msg_set_ad (b : bool) (m : msg) : msg :=
-  mkMsg (m_id m) (m_rcode m) (m_aa m) (m_tc m) (m_rd m) b (m_q m) (m_an m) (m_ns m) (m_ar m) (m_broken m).
+  mkMsg (m_id m) (m_rcode m) (m_aa m) (m_tc m) (m_rd m) b (m_q m) (m_qcase m) (m_an m) (m_ns m) (m_ar m) (m_broken m).
 
 Definition is_dnssec (t : N) : bool := existsb (N.eqb t) dnssec_types.
 Definition keep_rr (r : rr) : bool := negb (is_dnssec (r_type r)).
 
 (* remove_dnssec(msg, ad) *)
 Definition remove_dnssec (ad : bool) (m : msg) : msg :=
-  mkMsg (m_id m) (m_rcode m) (m_aa m) (m_tc m) (m_rd m) (if negb ad then false else m_ad m) (m_q m)
+  mkMsg (m_id m) (m_rcode m) (m_aa m) (m_tc m) (m_rd m) (if negb ad then false else m_ad m) (m_q m) (m_qcase m)
         (filter keep_rr (m_an m)) (filter keep_rr (m_ns m)) (filter keep_rr (m_ar m)) (m_broken m).
 
 (* every record is converted with into_record::<AllRecordData> before the
@@ -198,14 +199,20 @@ Fixpoint dec_list_opt (amount : N) (l : list rr) : outcome (list rr) :=
       do t' <- dec_list_opt amount t; Ok (r' :: t')
   end.
 
-Definition decrement_ttl (r : resp) (amount : N) : outcome resp :=
+(* the question is pushed with the name as the current request spelled it
+   (orig_qname); a message without question gets none *)
+Definition restore_case (m : msg) (qcase : N) : N :=
+  match m_q m with Some _ => qcase | None => m_qcase m end.
+
+Definition decrement_ttl (r : resp) (amount : N) (qcase : N) : outcome resp :=
   match r with
   | RErr e => Ok (RErr e)
   | RMsg m =>
       do an <- dec_list amount (m_an m);
       do ns <- dec_list amount (m_ns m);
       do ar <- dec_list_opt amount (m_ar m);
-      Ok (RMsg (mkMsg (m_id m) (m_rcode m) (m_aa m) (m_tc m) (m_rd m) (m_ad m) (m_q m) an ns ar (m_broken m)))
+      Ok (RMsg (mkMsg (m_id m) (m_rcode m) (m_aa m) (m_tc m) (m_rd m) (m_ad m) (m_q m) (restore_case m qcase)
+                      an ns ar (m_broken m)))
   end.
 
 (* `elapsed > self.valid_for` (operator from T1); elapsed in ms, valid in s *)
@@ -216,10 +223,10 @@ Definition expired (elapsed_ms valid_s : N) : bool :=
 Definition elapsed_ms (v : value) (now : N) : N := now - v_created v.
 Definition cast_secs (ms : N) : N := (ms / 1000) mod (2 ^ secs_cast_bits).
 
-Definition get_response (v : value) (now : N) : option (outcome resp) :=
+Definition get_response (v : value) (now : N) (qcase : N) : option (outcome resp) :=
   let e := elapsed_ms v now in
   if expired e (v_valid v) then None
-  else Some (decrement_ttl (v_resp v) (cast_secs e)).
+  else Some (decrement_ttl (v_resp v) (cast_secs e) qcase).
 
 (* update_message / update_header / new_from_value_and_response *)
 Definition update_message (c : config) (v : value) (tst : msg -> bool) (f : msg -> outcome msg)
@@ -344,19 +351,29 @@ Definition cache_lookup := cache_lookup_rd_do_ad.
 
 (* ---------- histories ------------------------------------------------------- *)
 
+(* A request is two atomic pieces of work separated by the wait for upstream:
+   [start] (key, lookup cascade, get_response) and, if that missed, [finish]
+   (Value::new on the answer, cache_insert, pass the answer through).  EQuery
+   is a request that nothing else interleaves with; EStart / EFinish let any
+   number of requests be in flight at once, in any interleaving.  EFinish is
+   not tied to a particular EStart: "an upstream answer for key k arrives at t"
+   may happen at any point (an over-approximation of what can happen). *)
 Inductive event :=
-| EQuery (k : key) (opcode : N) (now : N) (delay : N) (u : resp)
-    (* a request arriving at [now]; if it is forwarded, upstream answers [u]
-       after [delay] ms *)
+| EQuery (k : key) (opcode : N) (qcase : N) (now : N) (delay : N) (u : resp)
+    (* a request whose get_response runs at [now]; if it is forwarded, upstream
+       answers [u] after [delay] ms *)
+| EStart (k : key) (opcode : N) (qcase : N) (now : N)
+| EFinish (k : key) (t : N) (u : resp)
 | EEvict (n : nat).   (* the store drops its n-th entry *)
 
 Inductive obs :=
 | OServed (r : resp)   (* answered without contacting upstream (a response, or an
                           error raised while preparing it) *)
-| OForwarded           (* sent upstream, answer passed through and cached *)
-| OFwdErr (e : N)      (* sent upstream, but Value::new failed on the answer: the
+| OForwarded           (* upstream's answer passed through and cached *)
+| OFwdErr (e : N)      (* upstream answered, but Value::new failed on the answer: the
                           caller gets the error, nothing is cached *)
 | OBypass              (* not a QUERY/IN request: passed through, no caching *)
+| OPending             (* EStart that missed: the request is now waiting for upstream *)
 | OEvicted.
 
 (* the upstream log is ghost state: (key of the forwarded request, time the
@@ -365,34 +382,53 @@ Record state := mkState { s_cache : cache; s_log : list (key * N * resp) }.
 
 Definition state_init : state := mkState [] [].
 
+Inductive sres := SServed (r : resp) | SMiss | SBypass.
+
+Definition start (cfg : config) (st : state) (k : key) (opcode qcase now : N) : outcome (state * sres) :=
+  if negb ((opcode =? 0) && (k_class k =? class_in)) then Ok (st, SBypass)
+  else
+    do r <- cache_lookup cfg k (s_cache st);
+    let (c1, res) := r in
+    let st1 := mkState c1 (s_log st) in
+    match res with
+    | LFail e => Ok (st1, SServed (RErr e))   (* `cache_lookup(..).await?` *)
+    | LNone => Ok (st1, SMiss)
+    | LSome v =>
+        match get_response v now qcase with
+        | Some (Ok s) => Ok (st1, SServed s)
+        | Some (Err e) => Ok (st1, SServed (RErr e))
+        | Some (Panic p) => Panic p
+        | Some OutOfFuel => OutOfFuel
+        | None => Ok (st1, SMiss)
+        end
+    end.
+
+Definition finish (cfg : config) (st : state) (k : key) (t : N) (u : resp) : outcome (state * obs) :=
+  match validity cfg u with
+  | Ok val =>
+      do c2 <- cache_insert cfg k (mkValue t val u) (s_cache st);
+      Ok (mkState c2 ((k, t, u) :: s_log st), OForwarded)
+  | Err e => Ok (mkState (s_cache st) ((k, t, u) :: s_log st), OFwdErr e)   (* `Value::new(..)?` *)
+  | Panic p => Panic p
+  | OutOfFuel => OutOfFuel
+  end.
+
 Definition step (cfg : config) (st : state) (ev : event) : outcome (state * obs) :=
   match ev with
   | EEvict n => Ok (mkState (evict_nth n (s_cache st)) (s_log st), OEvicted)
-  | EQuery k opcode now delay u =>
-      if negb ((opcode =? 0) && (k_class k =? class_in)) then Ok (st, OBypass)
-      else
-        do r <- cache_lookup cfg k (s_cache st);
-        let (c1, res) := r in
-        match res with
-        | LFail e => Ok (mkState c1 (s_log st), OServed (RErr e))   (* `cache_lookup(..).await?` *)
-        | _ =>
-        match (match res with LSome v => get_response v now | _ => None end) with
-        | Some (Ok s) => Ok (mkState c1 (s_log st), OServed s)
-        | Some (Err e) => Ok (mkState c1 (s_log st), OServed (RErr e))
-        | Some (Panic p) => Panic p
-        | Some OutOfFuel => OutOfFuel
-        | None =>
-            let t := now + delay in
-            match validity cfg u with
-            | Ok val =>
-                do c2 <- cache_insert cfg k (mkValue t val u) c1;
-                Ok (mkState c2 ((k, t, u) :: s_log st), OForwarded)
-            | Err e => Ok (mkState c1 ((k, t, u) :: s_log st), OFwdErr e)   (* `Value::new(..)?` *)
-            | Panic p => Panic p
-            | OutOfFuel => OutOfFuel
-            end
-        end
-        end
+  | EQuery k opcode qcase now delay u =>
+      do r <- start cfg st k opcode qcase now;
+      let (st1, sr) := r in
+      match sr with
+      | SServed s => Ok (st1, OServed s)
+      | SBypass => Ok (st1, OBypass)
+      | SMiss => finish cfg st1 k (now + delay) u
+      end
+  | EStart k opcode qcase now =>
+      do r <- start cfg st k opcode qcase now;
+      let (st1, sr) := r in
+      Ok (st1, match sr with SServed s => OServed s | SBypass => OBypass | SMiss => OPending end)
+  | EFinish k t u => finish cfg st k t u
   end.
 
 Fixpoint run (cfg : config) (st : state) (evs : list event) : outcome (state * list obs) :=
